@@ -418,8 +418,10 @@ pub fn replay(ctx: &mut Ctx, d: &J) -> Option<()> {
         let mut parts = label.split('|');
         let kind = parts.next()?;
         let f = Fmt::from_name(parts.next()?)?;
-        if kind == "C05" {
-            probe_string(ctx, f, &input, "replay");
+        let _ = kind; // "C05" or "SANIT" (engine artifacts): the input goes through the same probe
+        probe_string(ctx, f, &input, "replay");
+        if let Err(p) = super::sanit::exercise(f, &input) {
+            ctx.report.violate("C05|exercise-panic".into(), format!("panic while exercising {:?}: {}", input, p), d.clone());
         }
         return Some(());
     }
